@@ -261,7 +261,13 @@ def run(res):
                     res.violations.append(dict(what='lam -> infinity bounds violated: H(b_lam) <= H(b0), g(b_lam) <= H(b0)/lam for the null-space least-squares fit b0',
                                                finding=None, input=inp, observed=dict(H_lam=Hl, H0=H0, g_lam=gl, bound=H0 / lam_hi), expected='within bounds'))
                 gap = float(np.max(np.abs(B @ beta - B @ b0)) / (np.max(np.abs(y)) + 1e-300))
-                if gap > 2e-2:
+                # the closeness check only makes sense where lam has reached the limit regime: by the proved bound the component of b_lam outside the
+                # null space has squared norm <= H0 / (lam * smallest positive eigenvalue of P); compare the fits only when that is negligible
+                lam_pos = float(ev[ev > 1e-10 * max(1.0, ev.max())].min()) if (ev > 1e-10 * max(1.0, ev.max())).any() else float('inf')
+                out_of_null = math.sqrt(max(H0, 0.0) / (lam_hi * lam_pos)) * float(np.linalg.norm(B, axis=1).max()) / (float(np.max(np.abs(y))) + 1e-300)
+                if out_of_null > 1e-3:
+                    res.count('limit closeness not compared: lam = 1e8 has not reached the limit regime (bound on the non-null component > 1e-3)')
+                elif gap > 2e-2:
                     res.violations.append(dict(what='fit at lam = 1e8 is not close to the weighted least-squares fit within the unpenalised space (checked, not proved)',
                                                finding=None, input=inp, observed=dict(max_relative_gap=gap), expected='<= 2e-2'))
             # lam = 0
